@@ -632,6 +632,15 @@ pub fn layout(rng: &mut Rng, toks: &[Tok], lo: &Layout) -> (String, Vec<usize>, 
     let mut offs = Vec::with_capacity(toks.len());
     let mut comments = vec![];
     let mut n_comment = 0;
+    // one line terminator for the whole document (as an editor writes it), or a mixture
+    let nl_style = if lo.compact { 0 } else { rng.below(10) };
+    let uniform_nl: Option<&str> = match nl_style {
+        6 => Some("\n"),
+        7 => Some("\r\n"),
+        // a lone CR does not end a `//` comment: only in comment-free layouts
+        8 if lo.comment_pct == 0 => Some("\r"),
+        _ => None,
+    };
     for (i, t) in toks.iter().enumerate() {
         // gap before token i
         let allow = lo.comment_gaps.map_or(true, |g| g.contains(&t.gap));
@@ -679,9 +688,13 @@ pub fn layout(rng: &mut Rng, toks: &[Tok], lo: &Layout) -> (String, Vec<usize>, 
                     _ => if must { " " } else { "" },
                 }
             };
+            let sep: String = match uniform_nl {
+                Some(nl) if sep.contains('\n') || sep.contains('\r') => sep.replace("\r\n", "\n").replace('\r', "\n").replace('\n', nl),
+                _ => sep.to_string(),
+            };
             if !s.ends_with(|c: char| c.is_whitespace()) || !sep.is_empty() {
                 if !(s.ends_with('\n') && sep.is_empty()) {
-                    s.push_str(sep);
+                    s.push_str(&sep);
                 }
             }
         }
